@@ -98,15 +98,24 @@ class Adapter:
             while not isinstance(base, N.CNameDeclaratorNode): base=base.base
             if base.default is not None:
                 out.append(ast.Assign([ast.Name(str(base.name), ast.Store())], self.expr(base.default)))
+                out[-1]._ctype = self.ctype(n.base_type)
         self.dropped.append(('cdef', n.pos[1]))
         return out
+    def ctype(self, t):
+        """'memoryview' / 'const memoryview' for typed buffers (a writable view refuses a read-only array), else the C type name"""
+        if isinstance(t, N.MemoryViewSliceTypeNode):
+            b = t.base_type_node
+            return 'const memoryview' if (isinstance(b, N.CQualifierTypeNode) and b.is_const) else 'memoryview'
+        if isinstance(t, N.CQualifierTypeNode):
+            return self.ctype(t.base_type)
+        return str(getattr(t, 'name', None))
     def args(self, arglist):
         a=[]; defaults=[]
         for arg in arglist:
             d=arg.declarator
             while not isinstance(d, N.CNameDeclaratorNode): d=d.base
             name = d.name or arg.base_type.name   # untyped arg: the "type" is the name
-            a.append(ast.arg(str(name)))
+            a.append(ast.arg(str(name), annotation=ast.Constant(self.ctype(arg.base_type)) if d.name else None))
             if arg.default is not None: defaults.append(self.expr(arg.default))
         return ast.arguments(posonlyargs=[], args=a, vararg=None, kwonlyargs=[], kw_defaults=[], kwarg=None, defaults=defaults)
     def decos(self, n): return [self.expr(d.decorator) for d in (n.decorators or [])]
